@@ -3,11 +3,13 @@
 
    Part DL (this file): ONE caller of a timed API and its environment, with the park primitive abstract.
      kinds of caller
-       KFull    the code of  mpsc::Receiver::recv_timeout / recv_max_until  (src/sync/mpsc.rs)  and of
-                Cqueue::poll(Some(timeout))  (src/cqueue.rs):   deadline = Instant::now() + timeout  once,
-                loop { try; register; re-check; park(Some(timeout)); [try;] if Instant::now() >= deadline {Timeout} }
-                -- every iteration parks for the FULL timeout, not for what is left of it
-       KRem     the textbook loop:  park(Some(deadline.saturating_duration_since(Instant::now())))
+       KRem     the code of  mpsc::Receiver::recv_timeout / recv_max_until  (src/sync/mpsc.rs)  and of
+                Cqueue::poll(Some(timeout))  (src/cqueue.rs)  since fix 3916da2:
+                deadline = Instant::now() + timeout  once,  remaining = timeout,
+                loop { try; register; re-check; park(Some(remaining)); [try;]
+                       now = Instant::now(); if now >= deadline {Timeout}; remaining = deadline.saturating_duration_since(now) }
+       KFull    the code BEFORE fix 3916da2: every iteration parks for the FULL timeout, not for what is left of it
+                (finding F35)
        KRecomp  the slip "deadline recomputed from now() in every iteration"
        KSingle  one park(Some(d)) and its verdict: Semphore / SyncFlag / Condvar ::wait_timeout (SyncBlocker
                 handshake after the park), mpmc recv_timeout (= Semphore::wait_timeout), Blocker::park(Some(d))
@@ -38,11 +40,10 @@ Inductive pc :=
 | Try0                 (* optimistic try_recv / try_wait / is_fired before anything else *)
 | ReadDl               (* let deadline = Instant::now() + timeout *)
 | Top                  (* loop head: new Blocker, to_wake.store, re-check of the queue *)
-| ReadRem              (* KRem only: remaining = deadline.saturating_duration_since(Instant::now()) *)
 | Enter                (* Blocker::park(dur): token already set => Ok at once *)
 | Parked
 | After (v : verdict)  (* park returned v: [try_recv again] / SyncBlocker handshake *)
-| Chk                  (* if Instant::now() >= deadline { return Timeout } *)
+| Chk                  (* now = Instant::now(); if now >= deadline { return Timeout }; remaining = deadline - now *)
 | Ret (r : result).
 
 Record st := mk {
@@ -130,11 +131,10 @@ Definition cstep (s : st) (to : bool) : option st :=
   match pcs s with
   | Idle => None
   | Try0 => Some (try s (if is_single then Top else ReadDl))
-  | ReadDl => Some (set_pcs Top (set_dl (now s + dur s) s))
+  | ReadDl => Some (set_pcs Top (set_rem (dur s) (set_dl (now s + dur s) s)))
   | Top =>
       let s1 := match K with KRecomp => set_dl (now s + dur s) s | _ => s end in
-      Some (try (set_tok false s1) (match K with KRem => ReadRem | _ => Enter end))
-  | ReadRem => Some (set_pcs Enter (set_rem (Z.max 0 (dl s - now s)) s))
+      Some (try (set_tok false s1) Enter)
   | Enter =>
       if tok s then Some (set_pcs (After VOk) (set_tok false s))
       else Some (set_pcs Parked (set_park (now s) (arm (park_arg s)) s))
@@ -155,7 +155,8 @@ Definition cstep (s : st) (to : bool) : option st :=
           | O => if gone s then Some (set_pcs (Ret RDisc) s) else Some (set_pcs Chk s1)
           end
         else Some (set_pcs Chk s1)
-  | Chk => if dl s <=? now s then Some (set_pcs (Ret RTimeout) (set_obs true s)) else Some (set_pcs Top s)
+  | Chk => if dl s <=? now s then Some (set_pcs (Ret RTimeout) (set_obs true s))
+           else Some (set_pcs Top (set_rem (Z.max 0 (dl s - now s)) s))
   | Ret r => Some (set_pcs Idle (set_res (Some (r, now s, delay s)) s))
   end.
 
@@ -266,8 +267,8 @@ Fixpoint pairs (l : list Z) : list (Z * Z) :=
 Definition res_code (r : result) : Z := match r with ROk => 0 | RTimeout => 1 | RDisc => 2 end.
 
 (* differential interface:  [api; ctx; t0; d; observed result; observed return time; t1; k1; t2; k2; ...]  =>  [result; return time]
-   api: 0 = mpsc recv_timeout (KFull, retry)   1 = Cqueue::poll (KFull, no retry)   2 = single park (sem / flag /
-        mpmc / condvar / Blocker::park)   3 = sleep   10/11 = the KRem variants of 0/1 (what a repaired loop would do)
+   api: 0 = mpsc recv_timeout (KRem, retry)   1 = Cqueue::poll (KRem, no retry)   2 = single park (sem / flag /
+        mpmc / condvar / Blocker::park)   3 = sleep   20/21 = the KFull variants of 0/1 (the code before fix 3916da2)
    ctx: 0 = coroutine (armed by AtomicDuration; sleep: exact)   1 = thread (ThreadPark / thread::sleep: exact)
    t0:  clock at the call; events carry absolute times, sorted.
    -1 as result = the model never returns (parked without a timer).  When an event lands at the very instant at which
@@ -279,8 +280,8 @@ Definition spin_tol := 100000.
 Definition tc_run (l : list Z) : list Z :=
   match l with
   | api :: ctx :: t0 :: d :: ob :: obt :: evl =>
-      let K := if (api =? 10) || (api =? 11) then KRem else if (api =? 2) || (api =? 3) then KSingle else KFull in
-      let retry := (api =? 0) || (api =? 10) in
+      let K := if (api =? 20) || (api =? 21) then KFull else if (api =? 2) || (api =? 3) then KSingle else KRem in
+      let retry := (api =? 0) || (api =? 20) in
       let arm := if (ctx =? 0) && negb (api =? 3) then armed else (fun x => Some x) in
       let s0 := set_time t0 0 init in
       match step K retry arm s0 (Call d) with
